@@ -13,7 +13,10 @@ CONSTANTS ValidateFirst,   \* TRUE = the input is validated and written to the n
           CheckPageSize,   \* TRUE = an image with another page size is refused up front (repaired)
           Emit
 
-Targets == {"absent", "empty", "dropped", "rb", "rb_hot_journal", "wal_frames", "wal_clean"}
+\* "rb_open_tx": a connection has a write transaction open when the import arrives; the import waits
+\* for the write lock, the transaction commits, then the import runs on top of it (valid inputs only:
+\* for the others "unchanged" would have to be taken between two concurrent steps)
+Targets == {"absent", "empty", "dropped", "rb", "rb_hot_journal", "wal_frames", "wal_clean", "rb_open_tx"}
 Inputs  == {"valid_rb", "valid_wal", "valid_bigger", "valid_smaller", "other_page_size", "truncated", "garbage", "empty"}
 Ifaces  == {"api", "http"}
 
@@ -27,14 +30,15 @@ VARIABLES target,   \* abstract state of the named database before the import
 vars == <<target, img, pos, newLtx, exited, result, input, iface, pc>>
 
 Init == /\ target \in Targets /\ input \in Inputs /\ iface \in Ifaces
+        /\ (target = "rb_open_tx" => input \in {"valid_rb", "valid_bigger", "valid_smaller"})
         /\ img = (IF target \in {"absent", "empty", "dropped"} THEN "none" ELSE "old")
         /\ pos = 0 /\ newLtx = FALSE /\ exited = FALSE /\ result = "pending" /\ pc = "start"
 
 HeaderOK == input \in {"valid_rb", "valid_wal", "valid_bigger", "valid_smaller", "other_page_size", "truncated"}
 BodyOK == input \in {"valid_rb", "valid_wal", "valid_bigger", "valid_smaller", "other_page_size"}
-HasPages == target \in {"rb", "rb_hot_journal", "wal_frames", "wal_clean"}
+HasPages == target \in {"rb", "rb_hot_journal", "wal_frames", "wal_clean", "rb_open_tx"}
 \* the page size is known for a database that has (or had) pages
-PageSizeKnown == target \in {"rb", "rb_hot_journal", "wal_frames", "wal_clean", "dropped"}
+PageSizeKnown == target \in {"rb", "rb_hot_journal", "wal_frames", "wal_clean", "dropped", "rb_open_tx"}
 
 Fail == result' = "error" /\ pc' = "done"
 
